@@ -3,6 +3,13 @@
 //   OPS <npoints> <tags: 5 study fields + 12 per point> <nops> (U <dt> | R | M <field> <value>)*     -> D <dump>
 //   RUN <mSubSteps> <nsteps> (ti te)* <nscript> (0|1)*    -> S <status> A <n> (t dt)* D <dump>
 // dump = u_1 u0 u1 u10 dt_1 period iterations subSteps then per point s_1 s0 s1 e0 e1 iv_1 iv0 iv1 se0 se1 de0 de1
+//   NRUN <mSubSteps> <iterMax> <linear prediction 0|1> <algorithm|none> <nsteps> (ti te)* <nfaults> (attempt pass)*
+//        the Newton branch (u1 not empty, 2 unknowns, 2 integration points, constant stiffness so that several passes are needed, real
+//        acceleration algorithm from the factory) with a fault-injecting "behaviour"    -> S <status> A <n> (t dt)* D <dumpn>
+//        dumpn = u_1(2) u0(2) u1(2) u10(2) dt_1 period iterations subSteps then per point the 12 fields
+//   ACC <algorithm> <n> <njunk> <nreal> then (njunk + nreal) x (u1(n) du(n) r(n)): the real acceleration algorithm fed with the passes of
+//        a rejected attempt then with those of a new attempt (preExecuteTasks in between), against a fresh object fed with the new attempt only
+//        -> H <nreal x n values: stale> | <nreal x n values: fresh>
 #include <cstdio>
 #include <cstdlib>
 #include <string>
@@ -16,6 +23,11 @@
 #include "MTest/SolverWorkSpace.hxx"
 #include "MTest/SolverOptions.hxx"
 #include "MTest/GenericSolver.hxx"
+#include "MFront/MFrontLogStream.hxx"
+#include "MTest/AccelerationAlgorithm.hxx"
+#include "MTest/AccelerationAlgorithmFactory.hxx"
+#include <cmath>
+#include <set>
 
 using mtest::real;
 
@@ -129,7 +141,110 @@ struct FaultyStudy final : mtest::Study {
   void setGaussPointPositionForEvolutionsEvaluation(const mtest::CurrentState&) const override {}
 };
 
+// ---- Newton branch: 2 unknowns, 2 integration points with the scalar strain e_p = b_p . u, a non linear history dependent "behaviour"
+// reading every field an attempt may read; constant stiffness (several passes per attempt); faults at chosen (attempt, pass)
+struct NewtonFaultyStudy final : mtest::Study {
+  static constexpr real b[2][2] = {{1, 0.5}, {-0.25, 1}};
+  std::set<std::pair<unsigned int, unsigned int>> faults;
+  mutable unsigned int attempt = 0, pass = 0;
+  mutable std::vector<std::pair<real, real>> attempts;
+  mutable std::vector<unsigned int> periods;
+  size_type getNumberOfUnknowns() const override { return 2; }
+  void initializeCurrentState(mtest::StudyCurrentState&) const override {}
+  void initializeWorkSpace(mtest::SolverWorkSpace&) const override {}
+  // like MTest::prepare: the driving variables at the beginning of the step are recomputed from u0
+  std::pair<bool, real> prepare(mtest::StudyCurrentState& scs, const real t, const real dt) const override {
+    auto& pts = scs.getStructureCurrentState("").istates;
+    for (std::size_t p = 0; p != 2; ++p) pts[p].e0[0] = b[p][0] * scs.u0[0] + b[p][1] * scs.u0[1];
+    ++(this->attempt);
+    this->pass = 0;
+    this->attempts.push_back({t, dt});
+    this->periods.push_back(scs.period);
+    return {true, 1};
+  }
+  // like MTest::makeLinearPrediction
+  void makeLinearPrediction(mtest::StudyCurrentState& scs, const real dt) const override {
+    if (scs.period > 1) {
+      const auto r = dt / scs.dt_1;
+      scs.u1 = scs.u0 + (scs.u0 - scs.u_1) * r;
+      for (auto& c : scs.getStructureCurrentState("").istates) {
+        c.iv1[0] = c.iv0[0] + (c.iv0[0] - c.iv_1[0]) * r;
+        c.s1[0] = c.s0[0] + (c.s0[0] - c.s_1[0]) * r;
+      }
+    }
+  }
+  bool doPackagingStep(mtest::StudyCurrentState&) const override { return true; }
+  std::pair<bool, real> computePredictionStiffnessAndResidual(mtest::StudyCurrentState&, tfel::math::matrix<real>&,
+                                                               tfel::math::vector<real>&, const real&, const real&,
+                                                               const mtest::StiffnessMatrixType) const override {
+    return {true, 1};
+  }
+  std::pair<bool, real> computeStiffnessMatrixAndResidual(mtest::StudyCurrentState& scs, tfel::math::matrix<real>& K,
+                                                           tfel::math::vector<real>& r, const real t, const real dt,
+                                                           const mtest::StiffnessMatrixType) const override {
+    ++(this->pass);
+    auto& pts = scs.getStructureCurrentState("").istates;
+    if (this->faults.count({this->attempt, this->pass}) != 0) {
+      real g = 1e9 + 17 * static_cast<real>(this->attempt) + this->pass;
+      for (auto& c : pts) {
+        c.s1[0] = g; c.iv1[0] = -g / 3; c.e1[0] = g / 7; c.se1 = g * 2; c.de1 = -g * 5;
+        g += 1;
+      }
+      return {false, 0.5};
+    }
+    const real tn = t + dt;
+    r[0] = -tn / 2;
+    r[1] = -tn * tn / 8;
+    for (std::size_t i = 0; i != 2; ++i)
+      for (std::size_t j = 0; j != 2; ++j) K(i, j) = 0;
+    for (std::size_t p = 0; p != 2; ++p) {
+      auto& c = pts[p];
+      c.e1[0] = b[p][0] * scs.u1[0] + b[p][1] * scs.u1[1];
+      const real de = c.e1[0] - c.e0[0];
+      c.iv1[0] = c.iv0[0] + dt * std::tanh(c.s0[0] + 2 * de) / 8 + c.iv_1[0] / 64;
+      c.s1[0] = c.s0[0] + 4 * de - 2 * (c.iv1[0] - c.iv0[0]) + de * de * de / 2 + c.s_1[0] / 128 + scs.dt_1 / 256;
+      c.se1 = c.se0 + c.s1[0] * de;
+      c.de1 = c.de0 + (c.iv1[0] - c.iv0[0]) * c.s1[0];
+      for (std::size_t i = 0; i != 2; ++i) {
+        r[i] += b[p][i] * c.s1[0];
+        for (std::size_t j = 0; j != 2; ++j) K(i, j) += 4 * b[p][i] * b[p][j];
+      }
+    }
+    return {true, 1};
+  }
+  real getErrorNorm(const tfel::math::vector<real>& du) const override { return std::max(std::abs(du[0]), std::abs(du[1])); }
+  bool checkConvergence(mtest::StudyCurrentState&, const tfel::math::vector<real>& du, const tfel::math::vector<real>& r,
+                        const mtest::SolverOptions& o, const unsigned int, const real, const real) const override {
+    return (std::abs(du[0]) <= o.eeps) && (std::abs(du[1]) <= o.eeps) && (std::abs(r[0]) <= o.seps) && (std::abs(r[1]) <= o.seps);
+  }
+  std::vector<std::string> getFailedCriteriaDiagnostic(const mtest::StudyCurrentState&, const tfel::math::vector<real>&,
+                                                       const tfel::math::vector<real>&, const mtest::SolverOptions&,
+                                                       const real, const real) const override {
+    return {};
+  }
+  void computeLoadingCorrection(mtest::StudyCurrentState&, mtest::SolverWorkSpace&, const mtest::SolverOptions&, const real,
+                                const real) const override {}
+  bool postConvergence(mtest::StudyCurrentState&, const real, const real, const unsigned int) const override { return true; }
+  void setModellingHypothesis(const std::string&) override {}
+  void printOutput(const real, const mtest::StudyCurrentState&, const bool) const override {}
+  void setDefaultModellingHypothesis() override {}
+
+ protected:
+  void setGaussPointPositionForEvolutionsEvaluation(const mtest::CurrentState&) const override {}
+};
+
+static void dumpn(const mtest::StudyCurrentState& scs) {
+  for (const auto* v : {&scs.u_1, &scs.u0, &scs.u1, &scs.u10}) std::printf(" %a %a", (*v)[0], (*v)[1]);
+  std::printf(" %a %u %u %u", scs.dt_1, scs.period, scs.iterations, scs.subSteps);
+  for (const auto& c : scs.getStructureCurrentState("").istates) {
+    std::printf(" %a %a %a %a %a %a %a %a %a %a %a %a", c.s_1[0], c.s0[0], c.s1[0], c.e0[0], c.e1[0], c.iv_1[0], c.iv0[0],
+                c.iv1[0], c.se0, c.se1, c.de0, c.de1);
+  }
+  std::printf("\n");
+}
+
 int main() {
+  mfront::setVerboseMode(mfront::VERBOSE_QUIET);
   std::string line;
   while (std::getline(std::cin, line)) {
     std::istringstream is(line);
@@ -216,6 +331,105 @@ int main() {
         }
         std::printf(" D");
         dump(scs, false);
+      } else if (cmd == "NRUN") {
+        mtest::SolverOptions o;
+        std::size_t ns, nf;
+        int lp;
+        std::string alg;
+        is >> o.mSubSteps >> o.iterMax >> lp >> alg >> ns;
+        o.ppolicy = lp ? mtest::PredictionPolicy::LINEARPREDICTION : mtest::PredictionPolicy::NOPREDICTION;
+        o.ktype = mtest::StiffnessMatrixType::ELASTIC;
+        o.eeps = 1e-9;
+        o.seps = 1e-8;
+        if (alg != "none") {
+          o.aa = mtest::AccelerationAlgorithmFactory::getAccelerationAlgorithmFactory().getAlgorithm(alg);
+          o.aa->initialize(2);
+        }
+        std::vector<std::pair<real, real>> steps(ns);
+        for (auto& st : steps) {
+          st.first = rd(is);
+          st.second = rd(is);
+        }
+        NewtonFaultyStudy s;
+        is >> nf;
+        for (std::size_t i = 0; i != nf; ++i) {
+          unsigned int a, k;
+          is >> a >> k;
+          s.faults.insert({a, k});
+        }
+        mtest::StudyCurrentState scs;
+        std::vector<real> tags(5 + 12 * 2, 0.);
+        for (std::size_t p = 0; p != 2; ++p) {
+          real* t = &tags[5 + 12 * p];
+          t[0] = 0.125 + p / 8.; t[1] = 0.25 + p / 4.; t[2] = t[1]; t[5] = 0.0625; t[6] = 0.125 + p / 16.; t[7] = t[6]; t[8] = 2; t[9] = 2; t[10] = 1; t[11] = 1;
+        }
+        scs.initialize(2);
+        setup(scs, 2, tags, false);
+        scs.u_1[0] = 0.03125; scs.u_1[1] = -0.0625;
+        scs.u0[0] = 0.0625; scs.u0[1] = -0.03125;
+        scs.u1 = scs.u0;
+        scs.u10 = scs.u0;
+        scs.dt_1 = 0.5;
+        mtest::SolverWorkSpace wk;
+        wk.K.resize(2, 2);
+        wk.p_lu.resize(2);
+        wk.x.resize(2);
+        wk.r.resize(2, 0.);
+        wk.du.resize(2, 0.);
+        std::string status = "done";
+        try {
+          for (const auto& st : steps) mtest::GenericSolver().execute(scs, wk, s, o, st.first, st.second);
+        } catch (std::exception& e) {
+          status = "raise";
+        }
+        std::printf("S %s A", status.c_str());
+        std::size_t na = 0;
+        for (std::size_t i = 0; i != s.attempts.size(); ++i) {
+          const auto nxt = i + 1 < s.attempts.size() ? s.periods[i + 1] : scs.period;
+          if (nxt > s.periods[i]) ++na;
+        }
+        std::printf(" %zu", na);
+        for (std::size_t i = 0; i != s.attempts.size(); ++i) {
+          const auto nxt = i + 1 < s.attempts.size() ? s.periods[i + 1] : scs.period;
+          if (nxt > s.periods[i]) std::printf(" %a %a", s.attempts[i].first, s.attempts[i].second);
+        }
+        std::printf(" D");
+        dumpn(scs);
+      } else if (cmd == "ACC") {
+        std::string alg;
+        std::size_t n, nj, nr;
+        is >> alg >> n >> nj >> nr;
+        std::vector<std::vector<real>> data(nj + nr, std::vector<real>(3 * n));
+        for (auto& row : data)
+          for (auto& x : row) x = rd(is);
+        auto run = [&](const bool stale) {
+          auto aa = mtest::AccelerationAlgorithmFactory::getAccelerationAlgorithmFactory().getAlgorithm(alg);
+          aa->initialize(static_cast<unsigned short>(n));
+          tfel::math::vector<real> u1(n), du(n), r(n);
+          auto feed = [&](const std::size_t b, const std::size_t e, const bool print) {
+            aa->preExecuteTasks();
+            tfel::math::vector<real> prev(n, 0.);
+            for (std::size_t k = b; k != e; ++k) {
+              for (std::size_t i = 0; i != n; ++i) {
+                // the unknowns given to the algorithm: its previous output corrected by the scripted increment
+                u1[i] = (k == b ? 0. : prev[i]) + data[k][i];
+                du[i] = data[k][n + i];
+                r[i] = data[k][2 * n + i];
+              }
+              aa->execute(u1, du, r, 1e-9, 1e-8, static_cast<unsigned short>(k - b + 1));
+              prev = u1;
+              if (print)
+                for (std::size_t i = 0; i != n; ++i) std::printf(" %a", u1[i]);
+            }
+          };
+          if (stale) feed(0, nj, false);  // the passes of a rejected attempt: `iterate` returns without postExecuteTasks
+          feed(nj, nj + nr, true);
+        };
+        std::printf("H");
+        run(true);
+        std::printf(" |");
+        run(false);
+        std::printf("\n");
       } else {
         std::printf("E unknown\n");
       }
